@@ -1046,7 +1046,7 @@ impl<'a, A: Write, B: Write> Gen<'a, A, B> {
         } else {
             self.any_val()
         };
-        let denom = s(self.r.pick(&["usei", "uusd", "uatom"]));
+        let denom = s(self.r.pick(&["usei", "uusd", "uAtom"]));
         let amt = if self.r.pct(15) {
             self.r.pick(&[1u128, 19, 20])
         } else {
@@ -1446,7 +1446,7 @@ impl<'a, A: Write, B: Write> Gen<'a, A, B> {
             _ => Op::Bond {
                 kind: self.r.pick(&[BondKind::B, BondKind::St]),
                 sender: u,
-                coins: vec![(s(self.r.pick(&["uusd", "uatom", "ujunk"])), amt)],
+                coins: vec![(s(self.r.pick(&["uusd", "uAtom", "ujunk"])), amt)],
             },
         }
     }
@@ -1509,7 +1509,7 @@ impl<'a, A: Write, B: Write> Gen<'a, A, B> {
                 hub: s("hub"),
                 reward_denom: s("uusd"),
                 swap: s("swap"),
-                denoms: vec![s("uatom"), s("usei")],
+                denoms: vec![s("uAtom"), s("usei")],
             },
             DISP => Op::InstDisp {
                 sender,
@@ -1521,14 +1521,23 @@ impl<'a, A: Write, B: Write> Gen<'a, A, B> {
                 rate: self.disp_rate(),
                 swap: s("swap"),
                 oracle: s("oracle"),
-                denoms: vec![s("uatom"), s("usei"), s("uusd")],
+                denoms: vec![s("uAtom"), s("usei"), s("uusd")],
             },
             REG => {
                 let n = self.r.below(5) as usize;
                 let vals = self.val_subset(n);
                 Op::InstReg { sender, hub: s("hub"), vals }
             }
-            BSEI => Op::InstBsei { sender, hub: s("hub"), balances: self.token_rows() },
+            BSEI => {
+                // some rows spell their address in upper case: the same account (canonical form)
+                let mut rows = self.token_rows();
+                for r in rows.iter_mut() {
+                    if self.r.pct(15) {
+                        r.0 = r.0.to_uppercase();
+                    }
+                }
+                Op::InstBsei { sender, hub: s("hub"), balances: rows }
+            }
             _ => Op::InstStsei {
                 sender,
                 hub: s("hub"),
@@ -1766,7 +1775,7 @@ impl<'a, A: Write, B: Write> Gen<'a, A, B> {
                 self.emit(Op::Gift { addr: s(USERS[i]), denom: s("usei"), amt });
             }
             if self.r.pct(30) {
-                let denom = s(self.r.pick(&["uusd", "uatom"]));
+                let denom = s(self.r.pick(&["uusd", "uAtom"]));
                 let amt = self.log_uniform(1, 1_000_000_000);
                 self.emit(Op::Gift { addr: s(USERS[i]), denom, amt });
             }
@@ -1810,7 +1819,7 @@ impl<'a, A: Write, B: Write> Gen<'a, A, B> {
             hub: s("hub"),
             reward_denom: s("uusd"),
             swap: s("swap"),
-            denoms: vec![s("uatom"), s("usei")],
+            denoms: vec![s("uAtom"), s("usei")],
         });
         let rate = match self.r.below(100) {
             0..=14 => 0u128,
@@ -1828,7 +1837,7 @@ impl<'a, A: Write, B: Write> Gen<'a, A, B> {
             rate,
             swap: s("swap"),
             oracle: s("oracle"),
-            denoms: vec![s("uatom"), s("usei"), s("uusd")],
+            denoms: vec![s("uAtom"), s("usei"), s("uusd")],
         });
         let nvals = if self.profile == "registry" {
             self.r.range(1, 8) as usize
@@ -1897,7 +1906,7 @@ impl<'a, A: Write, B: Write> Gen<'a, A, B> {
                 hub: s("hub"),
                 reward_denom: s("uusd"),
                 swap: s("swap"),
-                denoms: vec![s("uatom"), s("usei")],
+                denoms: vec![s("uAtom"), s("usei")],
             }],
             DISP => vec![Op::InstDisp {
                 sender: o,
@@ -1909,7 +1918,7 @@ impl<'a, A: Write, B: Write> Gen<'a, A, B> {
                 rate: 50_000_000_000_000_000,
                 swap: s("swap"),
                 oracle: s("oracle"),
-                denoms: vec![s("uatom"), s("usei"), s("uusd")],
+                denoms: vec![s("uAtom"), s("usei"), s("uusd")],
             }],
             REG => vec![Op::InstReg {
                 sender: o,
@@ -2186,7 +2195,7 @@ impl<'a, A: Write, B: Write> Gen<'a, A, B> {
             hub: s("hub"),
             reward_denom: s("uusd"),
             swap: s("swap"),
-            denoms: vec![s("uatom"), s("usei")],
+            denoms: vec![s("uAtom"), s("usei")],
         });
         let keeper_rate = match self.r.below(100) {
             0..=9 => 0u128,
@@ -2204,7 +2213,7 @@ impl<'a, A: Write, B: Write> Gen<'a, A, B> {
             rate: keeper_rate,
             swap: s("swap"),
             oracle: s("oracle"),
-            denoms: vec![s("uatom"), s("usei"), s("uusd")],
+            denoms: vec![s("uAtom"), s("usei"), s("uusd")],
         });
         let nvals = match self.r.below(100) {
             0..=14 => 1,
@@ -2297,7 +2306,16 @@ impl<'a, A: Write, B: Write> Gen<'a, A, B> {
             8..=29 => self.r.range(2, 4),
             30..=64 => self.r.range(5, 12),
             65..=89 => self.r.range(13, 25),
-            _ => self.r.range(26, 40),
+            90..=95 => self.r.range(26, 40),
+            // a long backlog (more than 100 batches: beyond every page size / default limit of the
+            // hub's queries and with two- and three-digit batch ids), when the clock leaves room for it
+            _ => {
+                if 131u128 * (epoch as u128 + 3 * ut as u128 + 12) < now as u128 {
+                    self.r.range(101, 130)
+                } else {
+                    self.r.range(26, 40)
+                }
+            }
         };
         let nh = (c - 1) as usize;
         let mut times: Vec<u64> = vec![0; nh + 1]; // index = batch id
@@ -2589,7 +2607,7 @@ impl<'a, A: Write, B: Write> Gen<'a, A, B> {
             let n = self.r.pick(&[0usize, 0, 1, 2]);
             for _ in 0..n {
                 let v = self.pick_str(&have_del).unwrap();
-                let denom = s(self.r.pick(&["uusd", "usei", "uusd", "uatom"]));
+                let denom = s(self.r.pick(&["uusd", "usei", "uusd", "uAtom"]));
                 let amt = self.spiky(1_000_000_000);
                 self.emit(Op::PokePend { addr: s("hub"), val: v, denom, amt });
             }
@@ -2652,7 +2670,7 @@ impl<'a, A: Write, B: Write> Gen<'a, A, B> {
         // batches
         let hist = hub_history(w);
         let c = cb.id;
-        assert!((1..=40).contains(&c) && hist.len() as u64 == c - 1, "synth: history ids 1..c-1");
+        assert!((1..=130).contains(&c) && hist.len() as u64 == c - 1, "synth: history ids 1..c-1");
         let now = w.now;
         let mut due = 0u128; // payouts still owed for released batches
         let mut expect_queue: Vec<(u128, u128)> = vec![]; // (completion, amount) of immature batches
